@@ -20,13 +20,16 @@ LEVEL = "model_checking"
 CFG_NEST = {"values": (3,), "templates": ("mul2", "add", "inc"), "iops": (("add", ("lit", 1)),), "unreg": True}
 CFG_MIX = {"values": (3,), "index_values": (1,), "templates": ("mul2", "add", "dbl", "pick", "total", "dyn", "abs", "neg", "unit", "kw2"),
            "unreg": True, "setc": True}
-CFG_MIX_Q = {"values": (3,), "index_values": (1,), "templates": ("mul2", "pick", "total", "dyn", "unit"), "unreg": True}
+CFG_MIX_Q = {"values": (3,), "index_values": (1,), "templates": ("mul2", "pick", "total", "dyn", "unit", "kw2"), "unreg": True}
 CFG_REDUCED = {"values": (3,), "templates": ("mul2", "inc"), "unreg": True}
 # gen_fun as an operation of the history (it may leave state behind, e.g. a source cache), small alphabet, deeper
 # right-nested chains with floats for which re-association changes the result
 CFG_ASSOC = {"values": (0.1,), "templates": ("addr", "mulr"), "unreg": False, "call_values": (0.1, 0.2)}
+# argument values beyond the float range: true division / modulo against a float make Python raise OverflowError; the generated
+# function and the manager must then fail alike (same exception type, same state left behind)
+CFG_BIG = {"values": (3,), "templates": ("bigdiv", "mul2"), "unreg": False, "call_values": (3, 10 ** 400), "leaves_n": 3}
 CFG_GEN = {"values": (3,), "templates": ("mul2",), "unreg": True, "leaves_n": 3}
-ALPHABETS = {"nest": CFG_NEST, "mix": CFG_MIX, "mixq": CFG_MIX_Q, "reduced": CFG_REDUCED, "gen": CFG_GEN, "assoc": CFG_ASSOC}
+ALPHABETS = {"nest": CFG_NEST, "mix": CFG_MIX, "mixq": CFG_MIX_Q, "reduced": CFG_REDUCED, "gen": CFG_GEN, "assoc": CFG_ASSOC, "big": CFG_BIG}
 
 
 def alphabet_for(world, name):
@@ -36,7 +39,8 @@ def alphabet_for(world, name):
         leaves = world["leaves"][:n]
         cfg["leaves"] = leaves
         cfg["sources"] = leaves
-        cfg["extra"] = [("genfun", (L,)) for L in leaves] + [("genfun", tuple(leaves[:2]))]
+        if name == "gen":
+            cfg["extra"] = [("genfun", (L,)) for L in leaves] + [("genfun", tuple(leaves[:2]))]
     return cfg
 MAXARGS = 3
 
@@ -117,14 +121,38 @@ class System(ManagerSystem):
                 mstate = ns
                 for vals in itertools.product(self.cfg.get("call_values", (3, 5)), repeat=k):
                     st["calls"] = st.get("calls", 0) + 1
+                    fexc = None
                     try:
                         fn(*vals)
                     except Exception as e:  # noqa
-                        issues.append(self.issue("violation", hist, op, f"generated function raised {type(e).__name__}: {e}", info))
-                        break
+                        fexc = e
+                    mexc = None
+                    texc = None
                     for L, v in zip(subset, vals):
-                        wt.apply(("set", L, v))
-                        mstate, _ = RM.step(mstate, ("set", L, v))
+                        try:
+                            wt.apply(("set", L, v))
+                        except Exception as e:  # noqa
+                            texc = texc or e
+                        try:
+                            mstate, _ = RM.step(mstate, ("set", L, v))
+                        except (OverflowError, ZeroDivisionError) as e:
+                            mexc = mexc or e
+                    if mexc is not None:
+                        # Python itself raises on these values: both executions must fail alike and leave the same state behind
+                        st["calls_where_python_raises"] = st.get("calls_where_python_raises", 0) + 1
+                        if type(fexc) is not type(texc) or not T.same(wf.contents(), wt.contents()):
+                            issues.append(self.issue("violation", hist, op,
+                                                     f"argument values {vals!r} make Python raise {type(mexc).__name__}: the generated function gave "
+                                                     f"{type(fexc).__name__ if fexc else 'no exception'}, assigning through the manager gave "
+                                                     f"{type(texc).__name__ if texc else 'no exception'}"
+                                                     + ("" if T.same(wf.contents(), wt.contents()) else "; the states left behind differ"), info))
+                        break
+                    if fexc is not None:
+                        issues.append(self.issue("violation", hist, op, f"generated function raised {type(fexc).__name__}: {fexc}", info))
+                        break
+                    if texc is not None:
+                        issues.append(self.issue("violation", hist, op, f"assigning through the manager raised {type(texc).__name__}: {texc}", info))
+                        break
                     exp = mstate.vals["s"]
                     of, ot = wf.contents(), wt.contents()
                     if not T.same(of, exp):
@@ -152,9 +180,9 @@ def plan(tier, seed):
     seeds = common.seeds_for(tier, seed, quick=(0,), thorough=(0, 1, 2))
     jobs = []
     if tier == "quick":
-        runs = [("W-nest", "reduced", 2), ("W-nest-4", "reduced", 3), ("W-mix", "mixq", 2), ("W-flat", "gen", 4), ("W-flat", "assoc", 2)]
+        runs = [("W-nest", "reduced", 2), ("W-nest-4", "reduced", 3), ("W-mix", "mixq", 2), ("W-flat", "gen", 4), ("W-flat", "assoc", 2), ("W-flat", "big", 2)]
     else:
-        runs = [("W-nest", "nest", 3), ("W-nest-4", "reduced", 4), ("W-mix", "mix", 3), ("W-flat", "gen", 6), ("W-nest-4", "gen", 5), ("W-flat", "assoc", 3), ("W-nest-4", "assoc", 2)]
+        runs = [("W-nest", "nest", 3), ("W-nest-4", "reduced", 4), ("W-mix", "mix", 3), ("W-flat", "gen", 6), ("W-nest-4", "gen", 5), ("W-flat", "assoc", 3), ("W-nest-4", "assoc", 2), ("W-flat", "big", 3)]
     for hs in seeds:
         for wname, alpha, depth in runs:
             jobs.append({"name": f"bfs:{wname}:{alpha}:d{depth}:seed{hs}", "mode": "compiled", "hashseed": hs,
